@@ -88,9 +88,10 @@ Definition run_new (files : list cdent) (dirloc : Z) (buf : bytes) (v : val) : l
 Definition wd_same (files : list cdent) (dirloc : Z) (force : bool) : bytes :=
   match write_directory files dirloc force false false with Ok (a, b) => a ++ b | _ => [] end.
 (* [3 calls force] : new(Directory); NewFile...; WriteDirectory(w, w, force) *)
+Definition vcall (v : val) : nfcall :=
+  mkCall (vb (vnth 0 v)) (vb (vnth 1 v)) (vb (vnth 2 v)) (vz (vnth 3 v)) (vz (vnth 4 v)) (vz (vnth 5 v)) (vz (vnth 6 v)) (vz (vnth 7 v)) (vbool (vnth 8 v)).
 Definition run_fresh (v : val) : val :=
-  let '(fs, dl, buf) := fold_left (fun st c => let '(fs, dl, buf) := st in run_new fs dl buf c) (vl (vnth 0 v)) ([], 0, []) in
-  VL [VB (buf ++ wd_same fs dl (vbool (vnth 1 v)))].
+  VL [VB (fresh_archive (map vcall (vl (vnth 0 v))) (vbool (vnth 1 v)))].
 
 (* [4 reader deleteflags calls force] : Read; Mangle(delete per flag); Mangler.NewFile...; MakePatch; apply the patch *)
 Fixpoint mangle_walk (r : reader) (fs : list cdent) (del : list val) (out : list cdent) (dirloc : Z) (ranges : list (Z * Z))
